@@ -27,6 +27,17 @@ struct KV { int key; int id; };
 struct KVLess { bool operator()(const KV& a, const KV& b) const { return a.key < b.key; } };
 struct KVGreater { bool operator()(const KV& a, const KV& b) const { return a.key > b.key; } };
 
+// a comparator whose moved-from state differs from a copy: it owns its rank table. A network implementation that
+// std::move()s the comparator / cswap object into a sub-network and then keeps using it calls an empty table.
+struct RankCmp {
+    std::vector<int> rank;
+    explicit RankCmp(int universe) { for (int i = 0; i < universe; ++i) rank.push_back(i); }
+    bool operator()(int a, int b) const {
+        if (rank.empty()) { printf("FAIL comparator used after being moved from\n"); fflush(stdout); abort(); }
+        return rank[static_cast<size_t>(a)] < rank[static_cast<size_t>(b)];
+    }
+};
+
 typedef std::vector<std::pair<int, int>> Net;
 static std::map<std::string, std::map<int, Net>> g_tabs;
 
@@ -162,6 +173,17 @@ int main(int argc, char** argv) {
             run_defaults(n, a);
             if (thorough || n <= 12) run_all_entry(n, a, std::greater<int>(), "greater");
             if (thorough || n <= 12) run_all_entry(n, b, KVLess(), "kvless");
+        }
+    }
+    // (1b) the stateful rank-table comparator (move-sensitive), every 0/1 input up to n = 16 (thorough) / 11 (quick) + n = 12..16 samples
+    {
+        RankCmp rc(2);
+        for (int n = 0; n <= 16; ++n) {
+            uint32_t total = 1u << n, stride = (thorough || n <= 11) ? 1 : 37;
+            for (uint32_t mask = 0; mask < total; mask += stride) {
+                int a[16]; for (int i = 0; i < n; ++i) a[i] = (mask >> i) & 1;
+                run_all_entry(n, a, rc, "rank-table");
+            }
         }
     }
     // (2) every input over three keys for small n
